@@ -100,6 +100,8 @@ def cases(tier, seed):
         out.append({"kind": "big", "cls": "big", "entry": cls, "idx": k, "seed": seed})
     for rep in range(24 if tier == "quick" else 400):
         out.append({"kind": "laws", "cls": "laws", "idx": rep, "maxd": 6 if tier == "quick" else 12, "seed": seed})
+    for rep in range(3 if tier == "quick" else 12):
+        out.append({"kind": "huge_logical", "cls": "huge_logical_shape", "idx": rep, "seed": seed})
     for rep in range(16 if tier == "quick" else 200):
         out.append({"kind": "storage_forms", "cls": "storage_forms", "idx": rep, "seed": seed})
     for rep in range(4 if tier == "quick" else 16):
@@ -133,8 +135,57 @@ def run_case(spec, ctx, R):
         _layouts(spec, ctx, R)
     elif k == "storage_forms":
         _storage_forms(spec, ctx, R)
+    elif k == "huge_logical":
+        _huge_logical(spec, ctx, R)
     else:
         raise ValueError(k)
+
+
+def _huge_logical(spec, ctx, R):
+    """Sparse operands whose PRODUCT has a logical shape of more than 2^31 (and 2^32) positions although only a handful of entries are stored
+    (70000 x 2 times 2 x 70000, 70000 x 70000 squared - the size of the deblurring operators): every stored entry of the result is compared
+    with a dictionary-of-keys Hamilton product; positions computed in 32-bit arithmetic wrap around."""
+    U = R.utils
+    rng = gen.rng_for(spec["seed"], "c01huge", spec["idx"])
+    big = [70000, 66000, 131072][spec["idx"] % 3]
+    inner = [2, big, 3][spec["idx"] % 3] if spec["idx"] % 3 != 1 else big
+    shapeA, shapeB = (big, inner), (inner, big)
+    nA = 6
+    ra = rng.integers(0, shapeA[0], size=nA); ca = rng.integers(0, shapeA[1], size=nA)
+    ra[0], ra[1] = shapeA[0] - 1, shapeA[0] - 5000          # rows near the end: row * ncols far above 2^32
+    cb = rng.integers(0, shapeB[1], size=nA); cb[0], cb[1] = shapeB[1] - 100, 100
+    rb = ca.copy()                                           # every stored entry of A meets one of B
+    va = rng.integers(-3, 4, size=(nA, 4)).astype(float); va[va.sum(axis=1) == 0, 0] = 1.0
+    vb = rng.integers(-3, 4, size=(nA, 4)).astype(float); vb[vb.sum(axis=1) == 0, 1] = 1.0
+
+    def build(rows, cols, vals, shape):
+        return U.SparseQuaternionMatrix(*[sparse.csr_matrix((vals[:, t], (rows, cols)), shape=shape) for t in range(4)], shape)
+    A_, B_ = build(ra, ca, va, shapeA), build(rb, cb, vb, shapeB)
+    ref = {}
+    for i in range(nA):
+        for j in range(nA):
+            if ca[i] == rb[j]:
+                q = np.quaternion(*va[i]) * np.quaternion(*vb[j])
+                key = (int(ra[i]), int(cb[j]))
+                ref[key] = ref.get(key, np.quaternion(0, 0, 0, 0)) + q
+    ctx.distinct("huge_logical", shapeA, ra, ca, cb)
+    for lab, call in (("ss", lambda: U.quat_matmat(A_, B_)), ("op_ss", lambda: A_ @ B_)):
+        try:
+            C_ = call()
+            got = {}
+            for t, comp in enumerate((C_.real, C_.i, C_.j, C_.k)):
+                co = comp.tocoo()
+                for r_, c_, v_ in zip(co.row, co.col, co.data):
+                    if v_ != 0:
+                        got.setdefault((int(r_), int(c_)), [0.0, 0.0, 0.0, 0.0])[t] += float(v_)
+            keys = set(got) | {k_ for k_, q in ref.items() if q != np.quaternion(0, 0, 0, 0)}
+            dev = max([float(np.max(np.abs(np.array(got.get(k_, [0, 0, 0, 0])) - np.array([ref.get(k_, np.quaternion(0, 0, 0, 0)).w, ref.get(k_, np.quaternion(0, 0, 0, 0)).x,
+                                                                                                ref.get(k_, np.quaternion(0, 0, 0, 0)).y, ref.get(k_, np.quaternion(0, 0, 0, 0)).z])))) for k_ in keys] + [0.0])
+            ok = tuple(C_.shape) == (shapeA[0], shapeB[1]) and dev <= 1e-12
+        except Exception as e:
+            ok, dev = False, repr(e)[:200]
+        ctx.check("product_T2", ok, site=lab + ":logical_shape_above_2^31", detail={"shape": [shapeA, shapeB], "max_deviation_or_error": dev})
+    ctx.hit("size:logical_shape_above_2^31")
 
 
 def _storage_forms(spec, ctx, R):
